@@ -90,7 +90,10 @@ def adversarial(seed):
         a = [A.SimpleContract(ns[0], n1, price='p1', min_cap=-2, max_cap=2, extra_costs=0.5),
              A.Transport(ns[1], [n1, n2], min_cap=0, max_cap=1, efficiency=0.5),
              A.SimpleContract(ns[2], n2, price='p2', min_cap=-3, max_cap=3),
-             A.SimpleContract(ns[2] + ns[0], n1, price='p3', min_cap=-3, max_cap=3)]
+             A.SimpleContract(ns[2] + ns[0], n1, price='p3', min_cap=-3, max_cap=3),
+             # two-node assets in both orientations (node names of different lengths)
+             A.Storage('S' + ns[0] + '>' + ns[1], [n1, n2], size=2, cap_in=1, cap_out=1, eff_in=0.5),
+             A.Storage('S' + ns[1] + '>' + ns[0], [n2, n1], size=2, cap_in=1, cap_out=1, no_simult_in_out=True, cost_in=0.1)]
         out.append(('names_' + '|'.join(ns), eao.portfolio.Portfolio(a), pr, tg))
     # order books whose first / middle / all orders have no step in the horizon, followed by other assets
     for k, placement in enumerate([(0,), (1,), (0, 1, 2), (2,)]):
@@ -163,12 +166,28 @@ def run(tier, seed):
     # label clauses on the per-asset tables inside every trace
     n_real = len(traces)
     bads = []
-    for mut in ('label', 'cost', 'nodal', 'unmapped'):
+    for mut in ('label', 'cost', 'nodal', 'unmapped', 'node'):
         b = copy.deepcopy(next(t for t in traces if t['g']['nodal'] and len(t['g']['maprows']) > 3))
         if mut == 'label':
             b['g']['maprows'][2]['lab'] = b['g']['maprows'][1]['lab']
         elif mut == 'cost':
             b['g']['c'][0] += 1000
+        elif mut == 'node':
+            # a dispatch row moved to another node of the portfolio that its asset was not declared with (asset tables adjusted alike,
+            # as a defect inside the asset's own set-up would do)
+            b = copy.deepcopy(next(t for t in traces if t['mode'] == 'all' and len({r['node'] for r in t['g']['maprows'] if r['type'] == 'd'}) > 1))
+            r0 = next(r for r in b['g']['maprows'] if r['type'] == 'd' and len(b['assets'][r['asset'] - 1]['nodes']) == 1)
+            other = next(r['node'] for r in b['g']['maprows'] if r['type'] == 'd' and r['node'] != r0['node'])
+            k, old_node = r0['asset'], r0['node']
+            for r in b['g']['maprows']:
+                if r['asset'] == k and r['node'] == old_node:
+                    r['node'] = other
+            for sg in b['assets'][k - 1]['sig']:
+                for e in sg:
+                    if e[0] == old_node:
+                        e[0] = other
+            for nd in b['g']['nodal']:
+                pass
         elif mut == 'nodal':
             b['g']['nodal'] = b['g']['nodal'][1:]
         else:
